@@ -149,9 +149,6 @@ Section ModLemmas.
     rewrite IHn, smul_0_l. apply madd_0_l.
   Qed.
 
-  (* scaling the points instead of the scalars *)
-  Definition pscale (c : list K) (G : list MO) : list MO := map2 smul c G.
-
   Lemma msm_vmul_pscale (a c : list K) (G : list MO) :
     msm (vmul a c) G = msm a (pscale c G).
   Proof.
